@@ -233,6 +233,15 @@ static std::vector<std::vector<unsigned char>> guardCorpus() {
         long len = (long) n * (long) units[i] + d; if (len < 0) continue;
         auto b = hdr(types[i], n); b.resize(b.size() + (size_t) len, 0); v.push_back(b);
     }
+    // the witness families of Props/C11.lean: d nested collections around a point; k nested over-claiming collections
+    auto put = [](std::vector<unsigned char>& b, uint32_t x) { for (int i = 0; i < 4; i++) b.push_back((unsigned char)(x >> (8 * i))); };
+    for (int d : {1, 2, 3, 50, 500, 3000}) { std::vector<unsigned char> b;
+        for (int i = 0; i < d; i++) { b.push_back(1); put(b, 7); put(b, 1); }
+        b.push_back(1); put(b, 1); for (int i = 0; i < 6; i++) b.push_back(0); b.push_back(0xf0); b.push_back(0x3f); for (int i = 0; i < 7; i++) b.push_back(0); b.push_back(0x40);
+        v.push_back(b); }
+    for (int k : {1, 2, 3, 5, 50, 400}) { std::vector<unsigned char> b;
+        for (int j = k; j >= 1; j--) { b.push_back(1); put(b, 7); put(b, (uint32_t)(j - 1)); }
+        v.push_back(b); }
     return v;
 }
 
@@ -260,6 +269,20 @@ int main(int argc, char** argv) {
     auto genLine = [&](int mixPct) -> std::string {
         for (;;) { std::string line = r.chance(mixPct) ? gm.geom() : (r.chance(15) ? gd.geom() : gp.geom());
             try { auto g = buildGeom(line, GF()); (void) g; return line; } catch (std::exception&) { out.count("gen_rejected_by_constructor"); } } };
+    // shapes the shared generator never makes but the constructors accept (each is a documented or suspected deviation)
+    auto special = [&]() -> std::string {
+        auto nanv = [&]() { switch (r.below(4)) { case 0: return std::string("7ff8000000000000"); case 1: return std::string("fff8000000000000");
+                                                   case 2: return std::string("7ff8000000000001"); default: return hex(frombits(0x7ff0000000000000ULL | (r.next() & 0xfffffffffffffULL) | 1ULL)); } };
+        std::string g;
+        switch (r.below(5)) {
+        case 0: { bool z = r.chance(50), m = r.chance(50); g = "P " + GTreeGen::flags(z, m) + " 1 " + nanv() + " " + nanv(); if (z) g += " " + hex(gp.ord()); if (m) g += " " + hex(gp.ord()); out.count("special_nan_point"); break; }
+        case 1: g = r.chance(50) ? "K 1 L xy 0" : "K 1 C xyz 0"; out.count("special_compound_empty_section"); break;
+        case 2: g = "Y 2 xy 0 xy 0"; out.count("special_empty_polygon_with_hole"); break;
+        case 3: g = "U 2 L xyz 0 C xy 0"; out.count("special_empty_curvepolygon"); break;
+        default: g = "U 1 C xym 0"; out.count("special_empty_curvepolygon"); break; }
+        switch (r.below(4)) { case 0: break; case 1: g = "GC 2 P xy 1 3ff0000000000000 4000000000000000 " + g; break;
+                              case 2: g = "GC 2 " + g + " P xy 0"; break; default: g = "GC 1 GC 1 " + g; break; }
+        return std::to_string(r.chance(50) ? 0 : r.range(1, 9999)) + " " + g; };
     auto randCfg = [&]() { WCfg c; c.dims = r.range(2, 4); c.order = (int) r.below(2); c.flavor = r.chance(50) ? 1 : 2; c.srid = (int) r.below(2); return c; };
 
     if (stream == "wkb-write") {
@@ -299,7 +322,7 @@ int main(int argc, char** argv) {
     } else if (stream == "wkb-roundtrip" || stream == "wkb-roundtrip-mixed") {
         int mix = stream == "wkb-roundtrip" ? 0 : 100;
         for (long i = 0; i < n; i++) {
-            std::string line = genLine(mix);
+            std::string line = (mix && r.chance(6)) ? special() : genLine(mix);
             for (int k = 0; k < 3; k++) { WCfg c = randCfg(); if (k == 0) c.dims = 4;
                 std::string cs = cfgToks(c) + " " + line; std::string e = evalCase(stream, cs); out.emit(cs, e);
                 out.count("dims_" + std::to_string(c.dims)); if (e == "err") out.count("roundtrip_read_err"); }
